@@ -223,13 +223,13 @@ theorem zip_ofFn_map {β γ δ : Type} (l : List β) (f : Fin l.length → γ) (
     (l.zip (List.ofFn f)).map g = List.ofFn (fun i : Fin l.length => g (l[i], f i)) := by
   apply List.ext_getElem <;> simp
 
-theorem teamAggs_length (teams : List (List (Rating ℝ))) (dense : List Nat) :
+theorem teamAggs_length_real (teams : List (List (Rating ℝ))) (dense : List Nat) :
     (teamAggs teams dense).length = min teams.length dense.length := by
   simp [teamAggs]
 
 theorem teamAggs_getElem (teams : List (List (Rating ℝ))) (dense : List Nat) (i : Nat)
     (h1 : i < teams.length) (h2 : i < dense.length) :
-    (teamAggs teams dense)[i]'(by rw [teamAggs_length]; omega) = teamAgg teams[i] dense[i] := by
+    (teamAggs teams dense)[i]'(by rw [teamAggs_length_real]; omega) = teamAgg teams[i] dense[i] := by
   simp [teamAggs]
 
 end model
